@@ -121,4 +121,37 @@ def framesFrom : Nat → Int → List Int → List (Nat × Int)
 
 def frames (t : GT) : List (Nat × Int) := framesFrom t.leaves.length 0 (sortAges t.ages)
 
+/-! ## the `dendropy.simulate.treesim` wrapper layer: `rand_trees(rng, birth_death_tree, kwargs, n)`
+
+The caller's keyword map is a parameter (`P`, `shared`): a function cannot write to it, so "the wrapper leaves the caller's map
+alone" holds by construction in the model and is an oracle clause on the code.  What the model states is the threading of ONE
+generator through the replicates: each replicate is the simulator itself, started where the previous one stopped.  With a
+namespace in the map (`shared`) the replicates also share it: it has grown to `max n0 leaves` after a replicate. -/
+
+/-- the common tail (`finish` / `finishRetain`) reading its two shuffles from the stream and leaving the rest -/
+def finishS (retain : Bool) (n0 : Nat) (t : BT) (ds : List Draw) : Except Err (SimResult × List Draw) :=
+  match ds with
+  | .perm p1 :: .perm p2 :: rest =>
+    match (if retain then finishRetain n0 t [.perm p1, .perm p2] else finish n0 t [.perm p1, .perm p2]) with
+    | .ok r => .ok (r, rest)
+    | .error e => .error e
+  | _ => .error (if ds.length < 2 then .draws else .kind)
+
+/-- `birth_death_tree` as a reader of a generator stream: the tree and the draws it leaves -/
+def bdRunS (P : BDParams) (n0 : Nat) (ds : List Draw) : Except Err (SimResult × List Draw) :=
+  match bdLoop P (ds.length + 1) (bdInit P) ds with
+  | .error e => .error e
+  | .ok (s, rest) => finishS P.retain n0 s.tree rest
+
+/-- `list(rand_trees(rng, birth_death_tree, kwargs, k))` -/
+def randTrees (P : BDParams) (shared : Bool) : Nat → Nat → List Draw → Except Err (List SimResult × List Draw)
+  | 0, _, ds => .ok ([], ds)
+  | k + 1, n0, ds =>
+    match bdRunS P n0 ds with
+    | .error e => .error e
+    | .ok (r, mid) =>
+      match randTrees P shared k (if shared then max n0 r.tree.nLeaves else n0) mid with
+      | .error e => .error e
+      | .ok (rs, rest) => .ok (r :: rs, rest)
+
 end DendroModel.C18
